@@ -54,4 +54,16 @@ CONTRACTS = {
         modifies=[],
         loops=[{"modifies": [], "invariant": ["not any(n not in self._nodes or isinstance(self._nodes[n], GateNode) for n in _seq[:_i])"]}],
     ),
+    GC + "Graph._get_emit_only_outputs": dict(
+        props=["C07", "C08", "C17"],
+        params={"self": OBJ("Graph")},
+        returns=SET(STR),
+        # an ordering-only name: declared as an output by some node, as a DATA output by none
+        ensures=["all(any(k in n.outputs for n in self._nodes.values()) and not any(k in n.data_outputs for n in self._nodes.values()) for k in result)",
+                 "all(all(o in result or any(o in m.data_outputs for m in self._nodes.values()) for o in n.outputs) for n in self._nodes.values())"],
+        modifies=[],
+        loops=[{"modifies": ["data_outputs", "all_outputs"], "invariant": [
+            "all(all(o in data_outputs for o in m.data_outputs) for m in _seq[:_i])", "all(any(k in m.data_outputs for m in _seq[:_i]) for k in data_outputs)",
+            "all(all(o in all_outputs for o in m.outputs) for m in _seq[:_i])", "all(any(k in m.outputs for m in _seq[:_i]) for k in all_outputs)"]}],
+    ),
 }
